@@ -476,8 +476,11 @@ class Interp:
 
     def __init__(self, prog, inline=None, max_paths=6000, max_depth=5,
                  fork_boolop=False, exc_edges=True, env=None, self_cls=None,
-                 unroll_const=False, no_inline=()):
+                 unroll_const=False, no_inline=(), mark_assumes=False):
         self.prog = prog
+        # record every assumption in the trace too (('assume', term, pol)),
+        # for rules that need to know WHERE on the path a test was made
+        self.mark_assumes = mark_assumes
         no_inline = frozenset(no_inline)   # analysed as units (summaries)
         self.self_cls = self_cls   # ClassInfo 'self' is analysed as
         self.unroll_const = unroll_const  # unroll loops over constant seqs
@@ -764,6 +767,34 @@ class Interp:
             return [(st, 'normal', None)]
         if isinstance(target, (ast.Tuple, ast.List)):
             n = len(target.elts)
+            stars = [i for i, e in enumerate(target.elts)
+                     if isinstance(e, ast.Starred)]
+            if len(stars) == 1:
+                # a, b, *rest = <sequence of known length>
+                seq = None
+                if is_const(v) and isinstance(v[1], tuple):
+                    seq = [C(x) for x in v[1]]
+                elif kind(v) in ('tuple', 'list') and all(
+                        kind(x) not in ('splice', 'starseq', 'prefix')
+                        for x in v[1]):
+                    seq = [x[1] if kind(x) == 'item' else x for x in v[1]]
+                if seq is not None and len(seq) >= n - 1:
+                    i = stars[0]
+                    k = len(seq) - (n - 1)
+                    parts = seq[:i] + [
+                        ('list', tuple(('item', x) for x in seq[i:i + k]))
+                    ] + seq[i + k:]
+                    outs = [st]
+                    for t, p in zip(target.elts, parts):
+                        t = t.value if isinstance(t, ast.Starred) else t
+                        nxt = []
+                        for c in outs:
+                            for r in self.assign(t, p, c, stmt):
+                                if r[1] != 'normal':
+                                    return [r]
+                                nxt.append(r[0])
+                        outs = nxt
+                    return [(o, 'normal', None) for o in outs]
             if kind(v) in ('tuple', 'list') and len(v[1]) == n and \
                     all(kind(x) not in ('splice', 'starseq', 'prefix')
                         for x in v[1]):
@@ -958,6 +989,8 @@ class Interp:
 
     def assume(self, st, v, pol):
         st.cond = st.cond + ((v, pol),)
+        if self.mark_assumes:
+            st.emit(('assume', v, pol))
         if pol:
             st.truthy = st.truthy | {v}
         else:
@@ -1371,6 +1404,15 @@ class Interp:
                 ok, seq = try_py(it)
                 if ok and isinstance(seq, (list, tuple)) and len(seq) <= 64:
                     return self._unroll(s, s2, seq)
+                if not ok and kind(it) in ('tuple', 'list') and \
+                        0 < len(it[1]) <= 64 and all(
+                            kind(x) not in ('splice', 'starseq', 'prefix')
+                            and kind(x[1] if kind(x) == 'item' else x)
+                            in ('tuple', 'list', 'const')
+                            for x in it[1]):
+                    # rows that hold a class or function next to constants
+                    rows = [x[1] if kind(x) == 'item' else x for x in it[1]]
+                    return self._unroll(s, s2, rows, terms=True)
             # a loop over a table of rows written in place,
             #     for key, value in (('sender', sender), ...):
             # is the same as its body written out once per row
@@ -2110,7 +2152,40 @@ class Interp:
             for a, v in b[1]:
                 if a == i:
                     return v
+        if st is not None and kind(b) == 'attr':
+            g = self._known_get(b, i, st)
+            if g is not None:
+                return g
         return ('sub', b, i)
+
+    def _known_get(self, b, i, st):
+        """`D.get(k[, None])` was read on this path and found not None, and
+        D was not changed since: `D[k]` is that same object (one term for
+        both spellings, so facts about the one hold for the other)."""
+        found = None
+        for c, pol in st.cond:
+            if kind(c) == 'cmp' and c[1] in ('is', 'is not') and \
+                    c[3] == NONE and (c[1] == 'is not') == pol:
+                t = c[2]
+                if kind(t) == 'call' and kind(t[2]) == 'attr' and \
+                        t[2][2] == 'get' and t[2][1] == b and t[3] and \
+                        t[3][0] == i and (len(t[3]) == 1 or
+                                          t[3][1:] == (NONE,)):
+                    found = t
+        if found is None:
+            return None
+        for ev in iter_events(st.trace):
+            if ev[0] in ('delsub', 'setsub') and ev[1] == b:
+                return None
+            if ev[0] in ('setattr', 'delattr') and \
+                    ('attr', ev[1], ev[2]) == b:
+                return None
+            if ev[0] == 'call' and kind(ev[1][2]) == 'attr' and \
+                    ev[1][2][1] == b and ev[1][2][2] in _MUTATORS:
+                return None
+            if ev[0] == 'mutate' and ev[1] == b:
+                return None
+        return found
 
     def ex_Slice(self, n, st):
         nodes = [x if x is not None else ast.Constant(value=None)
@@ -2474,6 +2549,17 @@ class Interp:
                         *[v for _, v in oks])), None)]
                 except Exception:
                     pass
+            if fn[1] in ('list', 'tuple') and len(args) == 1 and \
+                    kind(args[0]) in ('list', 'tuple') and all(
+                        kind(x) not in ('splice', 'starseq', 'prefix')
+                        for x in args[0][1]):
+                # a copy of a sequence whose elements are all known
+                els = [x[1] if kind(x) == 'item' else x
+                       for x in args[0][1]]
+                if fn[1] == 'list':
+                    return [(st, ('list', tuple(('item', x) for x in els)),
+                             None)]
+                return [(st, ('tuple', tuple(els)), None)]
             if fn[1] == 'len' and len(args) == 1:
                 a = args[0]
                 if kind(a) in ('tuple',) and not any(
